@@ -92,6 +92,7 @@ func genCase(rt *rapid.T, nInputs int) *Case {
 		m.Rules = append(m.Rules, greedy...)
 	}
 	starts := rapid.Permutation(ngStarts).Draw(rt, "starts")
+	var emitNG []*lexm.Rule // fragments that will @emit a token of the spec (filled in once all rules exist)
 	for i := 0; i < nNG; i++ {
 		ng := NG{Rule: len(m.Rules), Plus: rapid.Bool().Draw(rt, "plus"), Term: termPool[ri(rt, 0, len(termPool)-1, "term")]}
 		var prefix *lexm.Expr
@@ -121,9 +122,14 @@ func genCase(rt *rapid.T, nInputs int) *Case {
 		}
 		e := &lexm.Expr{Kind: "seq", Kids: []*lexm.Expr{prefix, {Kind: kind, Kids: []*lexm.Expr{body}}, {Kind: "lit", Lit: ng.Term}}}
 		r := &lexm.Rule{E: e}
-		if ri(rt, 0, 2, "ngfrag") == 0 {
+		switch ri(rt, 0, 5, "ngfrag") {
+		case 0, 1:
 			r.Actions = []lexm.Action{{Kind: "discard"}}
-		} else {
+		case 2:
+			// accumulating fragment: its text becomes part of the next token
+		case 3:
+			emitNG = append(emitNG, r)
+		default:
 			r.Name = fmt.Sprintf("N%c", 'A'+rune(i))
 		}
 		m.Rules = append(m.Rules, r)
@@ -140,6 +146,17 @@ func genCase(rt *rapid.T, nInputs int) *Case {
 	if !hasTok {
 		r := m.Rules[c.NGs[0].Rule]
 		r.Name, r.Actions = "NA", nil
+	}
+	var tokNames []string
+	for _, r := range m.Rules {
+		if r.Name != "" {
+			tokNames = append(tokNames, r.Name)
+		}
+	}
+	for _, r := range emitNG {
+		if r.Name == "" {
+			r.Actions = []lexm.Action{{Kind: "emit", Arg: tokNames[ri(rt, 0, len(tokNames)-1, "emitarg")]}}
+		}
 	}
 	// inputs
 	seen := map[string]bool{}
@@ -245,8 +262,13 @@ func reference(c *Case, in []byte) ([]lexm.Tok, bool) {
 	var out []lexm.Tok
 	nontrivial := false
 	pos := 0
+	start := 0 // where the text accumulated by action-less fragments begins
 	for {
 		if pos >= len(in) {
+			if start != pos {
+				// input ends inside accumulated text: that text is reported as an error
+				return append(out, lexm.Tok{Kind: "ERROR", Lo: start, Hi: start}), nontrivial
+			}
 			return append(out, lexm.Tok{Kind: "EOF", Lo: pos, Hi: pos}), nontrivial
 		}
 		// which non-greedy rule owns this first character?
@@ -261,21 +283,30 @@ func reference(c *Case, in []byte) ([]lexm.Tok, bool) {
 		if owner >= 0 {
 			e, ok, nt := ngMatch(c.NGs[owner], in, pos)
 			if !ok {
-				return append(out, lexm.Tok{Kind: "ERROR", Lo: pos, Hi: pos}), nontrivial
+				return append(out, lexm.Tok{Kind: "ERROR", Lo: start, Hi: start}), nontrivial
 			}
 			nontrivial = nontrivial || nt
 			win, end = c.NGs[owner].Rule, e
 		} else {
 			win, end = ref.Step(0, in, pos, skip)
 			if win < 0 {
-				return append(out, lexm.Tok{Kind: "ERROR", Lo: pos, Hi: pos}), nontrivial
+				return append(out, lexm.Tok{Kind: "ERROR", Lo: start, Hi: start}), nontrivial
 			}
 		}
 		r := c.S.Modes[0].Rules[win]
-		if r.Name != "" {
-			out = append(out, lexm.Tok{Kind: r.Name, Lo: pos, Hi: end})
-		}
 		pos = end
+		switch {
+		case r.Name != "":
+			out = append(out, lexm.Tok{Kind: r.Name, Lo: start, Hi: end})
+			start = end
+		case len(r.Actions) == 1 && r.Actions[0].Kind == "emit":
+			out = append(out, lexm.Tok{Kind: r.Actions[0].Arg, Lo: start, Hi: end})
+			start = end
+		case len(r.Actions) == 1 && r.Actions[0].Kind == "discard":
+			start = end
+		default:
+			// accumulate: the text joins the next token (or the next discarded stretch)
+		}
 	}
 }
 
@@ -351,7 +382,7 @@ func TestC08(t *testing.T) {
 	defer run.Finish(t)
 	run.Rule = "one mode with 1-2 rules of the shape prefix body{*?|+?} terminator (prefix: literal of 1-3 code points or a class; body: a class, '.', or an alternation of two; terminator from a pool favouring multi-character and self-overlapping literals such as aab, aa, **/, \"\"\", /*/) as token or @discard fragment, plus 0-3 greedy rules whose first characters are disjoint from the prefixes (declared before or after); inputs: prefix + body text containing proper prefixes and first characters of the terminator + terminator (sometimes twice, sometimes missing) + greedy text; " +
 		"oracle = the statement: the token ends at the first occurrence of the terminator after the prefix (after >=1 repetition for +?) with every code point in between in the body set; greedy rules by the derivative reference lexer; " +
-		"non-trivial = input in which the terminator occurs again after the match or its first character occurs inside the body; distinct by (spec text, input). Greedy rules sharing a first character with a non-greedy rule are outside the generated domain (undocumented interaction)."
+		"non-trivial = input in which the terminator occurs again after the match or its first character occurs inside the body; distinct by (spec text, input). Non-greedy rules are tokens, @discard fragments, @emit fragments or accumulating fragments (their text joins the next token). Greedy rules sharing a first character with a non-greedy rule are outside the generated domain (undocumented interaction)."
 	run.Assumptions = []string{"greedy rules never start with a character a non-greedy rule can start with"}
 	report := func(c *Case, detail string) {
 		c.Detail = detail
